@@ -35,6 +35,11 @@ def cases(draw, max_n=40):
         if subj == "MACD" and cfg["kw"]["fast_period"] >= cfg["kw"]["slow_period"]:
             cfg["kw"]["slow_period"] = cfg["kw"]["fast_period"] + 1
         cfg["kw"].pop("round_value", None)
+        if draw(st.integers(0, 5)) == 0:  # user-chosen name parts with dots (documented to be sanitised: '.' addresses a field)
+            if draw(st.booleans()):
+                cfg["kw"]["name_suffix"] = draw(st.sampled_from(("v1.5", "a.b", "x")))
+            else:
+                cfg["kw"]["fullname_override"] = draw(st.sampled_from(("my.ind", "fast.1", "plain"))) + str(len(members))
         tf = draw(st.sampled_from((None, None, "T5", "T10", "T1")))
         key = (subj, tf)
         if key in names:
